@@ -463,7 +463,7 @@ pub fn run(ctx: &Ctx) {
                 rep.inconclusive(&format!("c12 shape {} k {}: child was not killed (signal {:?})", shape_id, k, o.child_signal));
                 continue;
             }
-            rep.case(&(packets, att, survivor, observer, k), true);
+            rep.case(&(packets, att, survivor, observer, k, sz.sndbuf), true);
             rep.stat("crash_runs", 1);
             rep.stat(&format!("crash_{}", crash_class), 1);
             if partial {
